@@ -59,12 +59,12 @@ def configs(tier, seed):
     out = []
     for name in BOUNDS[tier]["dimsets"]:
         n = _nrows(name)
-        for layout in ("long_cols", "long_index", "wide"):
+        for layout in ("long_cols", "long_cols_letters", "long_index", "wide"):
             if layout == "wide" and len(DIMSETS[name]) < 2:
                 continue
             singles = _single_faults(name, "wide" if layout == "wide" else "long")
             sets = [[]] + [[f] for f in singles]
-            if n <= (4 if tier == "quick" else 8) and layout == "long_cols":
+            if n <= (4 if tier == "quick" else 8) and layout in ("long_cols", "long_cols_letters"):
                 sets += [list(p) for p in itertools.combinations(singles, 2)]
             for fs in sets:
                 for (am, ae) in FLAGS:
@@ -156,6 +156,8 @@ def _build(cfg, w):
             keep = [s[1] for k, s in enumerate(spec) if k not in removed_dims]
             if keep:
                 df = df.set_index(keep)
+        if layout == "long_cols_letters":
+            df = df.rename(columns={s[1]: s[0] for s in spec})
         model_rows = final
     else:
         last = spec[-1]
